@@ -488,3 +488,48 @@ def from_python(v):
     if isinstance(v, Undefined):
         return UNDEF
     raise TypeError(f"cannot lift {v!r}")
+
+
+# ---- canonical structural text of a term: independent of z3's AST ids (z3.simplify orders the
+# ---- arguments of commutative operators by id, i.e. by allocation history)
+
+_COMMUTATIVE = {z3.Z3_OP_AND, z3.Z3_OP_OR, z3.Z3_OP_EQ, z3.Z3_OP_DISTINCT, z3.Z3_OP_ADD, z3.Z3_OP_MUL, z3.Z3_OP_XOR}
+_DECL_TXT = {}
+
+
+def canon_text(t):
+    """A short digest of the (simplified) term's structure; commutative operators are read as
+    multisets.  Equal digests <=> structurally equal terms up to argument order of AC operators."""
+    import hashlib
+
+    t = z3.simplify(t)
+    memo = {}
+
+    def decl_txt(d):
+        k = d.get_id()
+        if k not in _DECL_TXT:
+            _DECL_TXT[k] = (d.sexpr(), d)  # keep the decl alive: ids are reused otherwise
+        return _DECL_TXT[k][0]
+
+    def go(e):
+        k = e.get_id()
+        if k in memo:
+            return memo[k]
+        if not z3.is_app(e):
+            r = hashlib.sha1(e.sexpr().encode()).hexdigest()[:16]
+        elif e.num_args() == 0:
+            r = hashlib.sha1(e.sexpr().encode()).hexdigest()[:16]
+        else:
+            kids = [go(e.arg(i)) for i in range(e.num_args())]
+            if e.decl().kind() in _COMMUTATIVE:
+                kids.sort()
+            r = hashlib.sha1((decl_txt(e.decl()) + "(" + ",".join(kids) + ")").encode()).hexdigest()[:16]
+        memo[k] = r
+        return r
+
+    import sys
+
+    lim = sys.getrecursionlimit()
+    if lim < 20000:
+        sys.setrecursionlimit(20000)
+    return go(t)
